@@ -50,6 +50,8 @@ type Program struct {
 	Tags    string
 
 	callersCache map[*ssa.Function][]ssa.CallInstruction
+	anchored     map[string]bool // FullName of functions looked up by name (P.Func): anchors of rules
+	NormalOf     []string        // non-nil: this program is an inlined normal form; the inlining log
 }
 
 func isOwnPath(p string) bool {
@@ -62,6 +64,12 @@ func isOwnPath(p string) bool {
 // LoadProgram loads /repo's current working tree. whole=false: own packages from source, dependencies
 // from export data, SSA bodies for own packages only. whole=true: every package from source.
 func LoadProgram(repo string, whole bool, goexperiment string) (*Program, error) {
+	return LoadProgramOverlay(repo, whole, goexperiment, nil)
+}
+
+// LoadProgramOverlay is LoadProgram with some files replaced by in-memory contents (the inlined
+// normal form, see normalize.go).
+func LoadProgramOverlay(repo string, whole bool, goexperiment string, overlay map[string][]byte) (*Program, error) {
 	mode := packages.LoadSyntax
 	if whole {
 		mode = packages.LoadAllSyntax
@@ -77,6 +85,9 @@ func LoadProgram(repo string, whole bool, goexperiment string) (*Program, error)
 		Fset:  fset,
 		Tests: false,
 		Env:   env,
+	}
+	if len(overlay) > 0 {
+		cfg.Overlay = overlay
 	}
 	pkgs, err := packages.Load(cfg, "./cmd/...", "./internal/...", "./config/...")
 	if err != nil {
@@ -176,6 +187,19 @@ func (P *Program) Pos(p token.Pos) string {
 // Func finds an own package-level function or method: Func(pkgAuthz, "setDenyResponse"),
 // Func(pkgAuthz, "(*oidcHandler).Process"). nil when absent.
 func (P *Program) Func(pkg, name string) *ssa.Function {
+	fn := P.lookupFunc(pkg, name)
+	if fn != nil {
+		if o, ok := fn.Object().(*types.Func); ok {
+			if P.anchored == nil {
+				P.anchored = map[string]bool{}
+			}
+			P.anchored[o.FullName()] = true
+		}
+	}
+	return fn
+}
+
+func (P *Program) lookupFunc(pkg, name string) *ssa.Function {
 	sp := P.SSA[pkg]
 	if sp == nil {
 		return nil
